@@ -155,6 +155,77 @@ CHECKS["C06"] = (
     "never do. The Rust memory model is not modelled: only the lock/GIL protocol.",
     "5/C06")
 
+CHECKS["C13"] = (
+    "Deferred, DeferredImpl, Deferred_Trace",
+    "TLA+ specs Deferred.tla (delay / promise / future as call-Lin-return machines) and DeferredImpl.tla (mechanisms as "
+    "built) model-checked by TLC (simulation, termination, negative configs); real executions under the deterministic "
+    "scheduler validated by Deferred_Trace",
+    "TLC checks that the mechanisms (guarded delay over an atom, promise as condition + flag, future wrapper) simulate the "
+    "required machines for 2-3 threads: a delay body never runs again after a run returned and never concurrently, first "
+    "deliver wins, a timed deref times out only while undelivered (expiry is a nondeterministic step), a future yields its "
+    "body's outcome, realized? is monotone; four wrong mechanisms are rejected. 2-4 real threads racing on one real delay / "
+    "promise / future (cooperative Condition and executor, virtual time) run through every schedule with at most 2 (3) "
+    "pre-emptions; every distinct recorded history must be accepted by the trace specification.",
+    "Trusted: TLC; the deterministic scheduler and its cooperative stand-ins for threading.Condition and the thread-pool "
+    "executor (a future's body is a scheduled logical thread); pre-emption bound 2/3 with seeded sampling above the "
+    "per-scenario budget.",
+    "5/C13")
+CHECKS["C11"] = (
+    "Bindings, BindingsImpl, Bindings_Gen, Bindings_Trace",
+    "TLA+ specs Bindings.tla (required) and BindingsImpl.tla (as built: per-Var stacks + per-thread frames, one Var pushed "
+    "at a time in the map's iteration order, each push may fail) model-checked in lock step; TLC-generated histories "
+    "replayed on real dynamic Vars and threads; recorded runs validated by Bindings_Trace",
+    "TLC checks for 3 dynamic Vars, nesting depth 4, 1-3 threads and a failure injected at every step of establishing a "
+    "multi-Var binding: on leaving a binding form by any path every Var has the value it had before, bindings are "
+    "thread-local, conveyed children (future, bound-fn*, pmap) start with the parent's visible values, set! changes only the "
+    "innermost binding; the model without rollback is rejected. Every history to depth 4 (plus simulated depth-10 ones) is "
+    "executed with the real binding / with-bindings* / push- and pop-thread-bindings / set! / future / bound-fn* / pmap, and "
+    "after every step every Var is read in every live thread and compared with the specification state.",
+    "Trusted: TLC; the queue-stepped worker threads of the replayer; the real map's iteration order is read before a push so "
+    "that 'fails at the k-th Var' means the same in model and code.",
+    "5/C11")
+CHECKS["C18"] = (
+    "MultiFn, MultiFnImpl, MultiFn_Gen, MultiFn_Diag",
+    "TLA+ specs MultiFn.tla (required resolution) and MultiFnImpl.tla (method table, preferences, dispatch cache with "
+    "hierarchy snapshot, search over an arbitrary iteration order) model-checked by TLC; TLC-generated histories replayed "
+    "on a real defmulti with every dispatch value called after every step",
+    "TLC explores the full reachable state space of small universes (diamond of keywords, class inheritance, vectors): the "
+    "cache is invisible (every call answers what a from-scratch resolution answers, for every iteration order), "
+    "isa?/parents/ancestors/descendants stay mutually consistent under derive/underive; five wrong mechanisms are rejected. "
+    "About 16 000 histories (exhaustive to length 4, simulated to 40) run on a real multimethod through defmethod, "
+    "remove-method, remove-all-methods, prefer-method, derive, underive; after every step every dispatch value is called "
+    "twice and the hierarchy functions are compared; keyword-name permutations (thorough: other hash seeds in child "
+    "interpreters) realise different iteration orders.",
+    "Trusted: TLC; the assignment of concrete keyword names/classes to abstract tags. Ambiguous-vs-no-method errors are not "
+    "told apart by class; a cached answer surviving prefer-method without reset is not distinguishable under this spec.",
+    "5/C18")
+CHECKS["C04"] = (
+    "Collections, Collections_MC",
+    "TLA+ spec Collections.tla (heap of immutable versions of vector / map / set / list / queue + transients, every "
+    "operation's result incl. errors and metadata) checked by TLC; the state graph is replayed prefix-shared into the real "
+    "collections with every earlier value re-checked after every step",
+    "TLC checks algebraic laws on every value any history produces and the action properties AppendOnly (no operation "
+    "changes an earlier version) and TransientDiscipline. Each node of the history tree (depth 3-4 per type, keys with "
+    "colliding hashes) is one real operation applied to the real object of its parent node; after each step the new object "
+    "and EVERY object produced so far are compared with their model entries (count, seq, get/nth/contains? of every key, "
+    "peek, meta, hash, = against all earlier versions). Simulated histories of length 60 reach 33+ elements (tail overflow, "
+    "interior nodes).",
+    "Trusted: TLC; the key universe concretisation. Where the property is silent (metadata after pop/merge/persistent!, "
+    "negative vector indices) the model is nondeterministic.",
+    "5/C04")
+CHECKS["C05"] = (
+    "EqHash, EqHashImpl",
+    "TLA+ spec EqHash.tla (canonical form, Eq, lookup machine keyed by equivalence classes) checked by TLC on all triples; "
+    "as-built model EqHashImpl.tla with named deviations; all ordered pairs and lookup histories replayed on real values",
+    "TLC checks that Eq is reflexive (except NaN), symmetric and transitive on all triples of a 59-value universe of equal "
+    "values in different representations, that equal values hash alike and are interchangeable keys, that sequential "
+    "collections are equal by elements and booleans never equal numbers at any depth; three wrong models are rejected. "
+    "Every ordered pair is compared with the real = and hash on fresh objects, and lookup histories (assoc/get/contains?/"
+    "dissoc/conj/disj with keys of one representation probed with another) are replayed on real maps and sets.",
+    "Trusted: TLC; construction of each representation (vector, list, cons, lazy seq, queue, map entry, range seq, record). "
+    "Numbers are equal by value across int/float/ratio/decimal; NaN appears only at top level.",
+    "5/C05")
+
 NOT_APPLICABLE = []
 
 
